@@ -112,7 +112,7 @@ def run_tlc(cfg, extra=None, workers=1, timeout=600):
         outp = os.path.join(work, "out.txt")
         t0 = time.time()
         env = dict(os.environ)
-        env.setdefault("JAVA_TOOL_OPTIONS", "-Xmx3g")  # the model is small; the machine is shared
+        env["JAVA_TOOL_OPTIONS"] = env.get("JAVA_TOOL_OPTIONS", "-Xmx3g") + f" -Djava.io.tmpdir={work}"  # small model, shared machine; TLC's scratch directory goes away with `work`
         for attempt in (1, 2):
             try:
                 with open(outp, "w") as fo:
